@@ -48,6 +48,7 @@ SHAPES = {
     'l3': lambda a: ['l', a[0], a[1], a[2]],
     'n21': lambda a: ['l', ['l', a[0], a[1]], a[2]],
     'n12': lambda a: ['l', ['l', a[0]], ['l', a[1], a[2]]],
+    'r12': lambda a: ['l', a[0], ['l', a[1], a[2]]],    # flat first, nested later
     'c1': lambda a: ['c', a[0]],
     'c2': lambda a: ['c', a[0], a[1]],
     'c3': lambda a: ['c', a[0], a[1], a[2]],
@@ -55,7 +56,7 @@ SHAPES = {
     'cl21': lambda a: ['c', ['l', a[0], a[1]], a[2]],
     'o': lambda a: ['o'],
 }
-CTOR_SHAPES = ['s', 't', 'l1', 'l2', 'l3', 'n21', 'n12', 'c2', 'o']
+CTOR_SHAPES = ['s', 't', 'l1', 'l2', 'l3', 'n21', 'n12', 'r12', 'c2', 'o']
 
 
 def shape_spec(shape, base):
@@ -640,7 +641,7 @@ RECV_SHAPES = ['s', 'c1', 'c2', 'c3', 'cc21', 'cl21']
 # over the channels "as if it were a list" by design (docstring of list_binop,
 # pinned by tests/test_multichannel.py) -> not judged (don't-care).  Tuples
 # stay judged for constructors (family 'tuple').
-OTHER_SHAPES = ['s', 'l1', 'l2', 'l3', 'n21', 'n12', 'c2', 'cc21']
+OTHER_SHAPES = ['s', 'l1', 'l2', 'l3', 'n21', 'n12', 'r12', 'c2', 'cc21']
 
 
 def op_cases(inv, modes):
@@ -1156,7 +1157,7 @@ def main(ctx):
     progenum.run(ctx, MODNAME, 'work_ctor',
                  [{'shard': i, 'of': NS, 'modes': cmodes,
                    'triples': thorough} for i in range(NS)],
-                 bound='ctor: 9 shapes on every pair of parameters (full '
+                 bound='ctor: 10 shapes on every pair of parameters (full '
                        'product for <= 3 parameters'
                        + (', every triple for 4-7 parameters' if thorough
                           else '') + '), atom modes ' + '/'.join(cmodes))
@@ -1169,7 +1170,7 @@ def main(ctx):
     progenum.run(ctx, MODNAME, 'work_list',
                  [{'family': 'op', 'shard': i, 'of': 32, 'modes': omodes}
                   for i in range(32)],
-                 bound='op: every operator x 6 receiver shapes x 8 operand '
+                 bound='op: every operator x 6 receiver shapes x 9 operand '
                        'shapes, operand atom modes ' + '/'.join(omodes))
     mmodes = ['n', 'u', 'm'] if thorough else ['m']
     progenum.run(ctx, MODNAME, 'work_list',
